@@ -29,6 +29,8 @@ type Case struct {
 	Init   uint32 `json:"init,omitempty"` // rread: InitRread count
 	Nrec   int    `json:"nrec,omitempty"` // dir: number of records
 	Desc   string `json:"desc,omitempty"`
+	// rread: SetTag is called between InitRread and SetRreadCount
+	TagFirst bool `json:"tagfirst,omitempty"`
 }
 
 func run(c *Case) (err error) {
@@ -48,6 +50,9 @@ func run(c *Case) (err error) {
 	return fmt.Errorf("harness: unknown kind %q", c.Kind)
 }
 
+var prevFc *go9p.Fcall
+var prevWant []byte
+
 func runMsg(c *Case) error {
 	m, n, err := ref9p.Decode(c.Pkt, c.Dotu)
 	if err != nil || n != len(c.Pkt) {
@@ -57,6 +62,11 @@ func runMsg(c *Case) error {
 	if err := conv.Pack(fc, m, c.Dotu); err != nil {
 		return fmt.Errorf("constructor refused a representable %s: %v", ref9p.TypeName(m.Type), err)
 	}
+	// packing into one Fcall must not disturb a packet built earlier in another Fcall
+	if prevFc != nil && !bytes.Equal(prevFc.Pkt, prevWant) {
+		return fmt.Errorf("packing a %s disturbed the packet of a previously built %s (differs at byte %d)", ref9p.TypeName(m.Type), ref9p.TypeName(prevFc.Type), firstDiff(prevFc.Pkt, prevWant))
+	}
+	defer func() { prevFc, prevWant = fc, append([]byte(nil), fc.Pkt...) }()
 	// constructors always write NOTAG
 	want := ref9p.SetTag(c.Pkt, ref9p.NOTAG)
 	if !bytes.Equal(fc.Pkt, want) {
@@ -111,13 +121,22 @@ func runDir(c *Case) error {
 	}
 	// encode each with go9p
 	var all []byte
+	var held [][]byte
 	for i, s := range recs {
 		b := go9p.PackDir(conv.GDir(s), c.Dotu)
 		want := ref9p.EncodeStat(s, c.Dotu)
 		if !bytes.Equal(b, want) {
 			return fmt.Errorf("PackDir record %d dotu=%v differs at byte %d:\n got  %s\n want %s", i, c.Dotu, firstDiff(b, want), hexs(b), hexs(want))
 		}
-		all = append(all, b...)
+		held = append(held, b)
+	}
+	// the records are values of their own: encoding another one must not disturb them
+	for i, s := range recs {
+		want := ref9p.EncodeStat(s, c.Dotu)
+		if !bytes.Equal(held[i], want) {
+			return fmt.Errorf("PackDir record %d of %d was overwritten by a later PackDir call (differs at byte %d)", i, len(recs), firstDiff(held[i], want))
+		}
+		all = append(all, held[i]...)
 	}
 	buf := append(append([]byte(nil), all...), c.Junk...)
 	b := buf
@@ -164,8 +183,13 @@ func runRread(c *Case) error {
 		return fmt.Errorf("InitRread(%d): len(Data)=%d", c.Init, len(fc.Data))
 	}
 	copy(fc.Data, m.Data)
-	go9p.SetRreadCount(fc, uint32(len(m.Data)))
 	want := ref9p.SetTag(c.Pkt, ref9p.NOTAG)
+	if c.TagFirst {
+		// the tag is set after InitRread and before the count is known
+		go9p.SetTag(fc, c.NewTag)
+		want = ref9p.SetTag(c.Pkt, c.NewTag)
+	}
+	go9p.SetRreadCount(fc, uint32(len(m.Data)))
 	if !bytes.Equal(fc.Pkt, want) {
 		return fmt.Errorf("InitRread(%d)+SetRreadCount(%d): packet differs at byte %d:\n got  %s\n want %s", c.Init, len(m.Data), firstDiff(fc.Pkt, want), hexs(fc.Pkt), hexs(want))
 	}
@@ -370,8 +394,9 @@ func TestPropRread(t *testing.T) {
 		c := &Case{Kind: "rread", Dotu: dotu, Pkt: ref9p.Encode(m, dotu), Init: uint32(init)}
 		c.Slack = rapid.SampledFrom([]int{0, 1, 100}).Draw(t, "slack")
 		c.NewTag = gen9p.U16().Draw(t, "newtag")
+		c.TagFirst = rapid.Bool().Draw(t, "tagfirst")
 		hx.Eval()
-		hx.Label(fmt.Sprintf("rread-two-step shrink=%v", n < init))
+		hx.Label(fmt.Sprintf("rread-two-step shrink=%v tagfirst=%v", n < init, c.TagFirst))
 		if n > 0 {
 			hx.NonTrivial("rread", init, c.Pkt)
 		}
